@@ -646,10 +646,12 @@ bool pristine_native_hash(const std::string &spec, const std::string &target, un
   std::string out;
   char buf[512];
   ssize_t k;
+  g_waiting_for_grandchild++;
   while ((k = read(pfd[0], buf, sizeof buf)) > 0) out.append(buf, k);
   close(pfd[0]);
   int stt;
   waitpid(pid, &stt, 0);
+  g_waiting_for_grandchild--;
   unsigned long long h = 0;
   size_t pos = out.find("PRISTINE ok ");
   if (pos == std::string::npos) return false;
